@@ -158,6 +158,7 @@ type World struct {
 	faults FaultPlan
 	// PVCLookupFail makes the claim lister fail for these claim names (lookup failure)
 	PVCLookupFail map[string]bool
+	lookupFailed  bool
 	active        bool
 }
 
@@ -204,6 +205,7 @@ type failPVCNSLister struct {
 
 func (l failPVCNSLister) Get(name string) (*v1.PersistentVolumeClaim, error) {
 	if l.w.PVCLookupFail[name] {
+		l.w.lookupFailed = true
 		return nil, apierrors.NewInternalError(fmt.Errorf("injected claim lookup failure"))
 	}
 	return l.PersistentVolumeClaimNamespaceLister.Get(name)
@@ -279,6 +281,8 @@ type Rec struct {
 	// CacheMutated names cache objects the reconcile modified in place.
 	CacheMutated []string
 	Faults       FaultPlan
+	// LookupFailed: an injected lister failure was hit during the reconcile.
+	LookupFailed bool
 }
 
 func (r *Rec) Writes() []*Call {
@@ -334,6 +338,7 @@ func (w *World) Reconcile(key string, f FaultPlan) *Rec {
 		snaps = append(snaps, snap{"pvc/" + k, p, p.DeepCopy()})
 	}
 	w.Begin(f)
+	w.lookupFailed = false
 	func() {
 		defer func() {
 			if r := recover(); r != nil {
@@ -351,6 +356,7 @@ func (w *World) Reconcile(key string, f FaultPlan) *Rec {
 		rec.Err = w.Ctrl.VerifSync(key)
 	}()
 	rec.Calls = w.End()
+	rec.LookupFailed = w.lookupFailed
 	for _, s := range snaps {
 		if !reflect.DeepEqual(s.live, s.copy) {
 			rec.CacheMutated = append(rec.CacheMutated, s.name)
